@@ -223,11 +223,11 @@ func (w *World) Gen() *GenTx {
 				maxs = new(big.Int).Add(amt, w.R.BigBelow(pip(60)))
 			}
 			typ, data = transaction.TypeCreateCoin, transaction.CreateCoinData{Name: "c", Symbol: w.sym(), InitialAmount: amt, InitialReserve: res,
-				ConstantReserveRatio: uint32(10 + w.R.Intn(91)), MaxSupply: maxs}
+				ConstantReserveRatio: uint32(10 + w.R.Intn(91)), MaxSupply: capAround(amt, maxs)}
 		case "createtoken":
 			amt := new(big.Int).Add(w.R.BigBelow(pip(1000000)), pip(1))
 			typ, data = transaction.TypeCreateToken, transaction.CreateTokenData{Name: "t", Symbol: w.sym(), InitialAmount: amt,
-				MaxSupply: new(big.Int).Mul(amt, Z(int64(1+w.R.Intn(10)))), Mintable: w.R.Intn(3) != 0, Burnable: w.R.Intn(3) != 0}
+				MaxSupply: capAround(amt, new(big.Int).Mul(amt, Z(int64(1+w.R.Intn(10))))), Mintable: w.R.Intn(3) != 0, Burnable: w.R.Intn(3) != 0}
 		case "sellcoin", "buycoin", "sellallcoin":
 			if len(w.Bancor) == 0 {
 				continue
@@ -479,7 +479,7 @@ func (w *World) Gen() *GenTx {
 			var s types.CoinSymbol
 			copy(s[:], []byte(fmt.Sprintf("VRF%05d", 1+w.R.Intn(w.Symbols))))
 			amt := new(big.Int).Add(w.R.BigBelow(pip(1000000)), pip(1))
-			typ, data = transaction.TypeRecreateToken, transaction.RecreateTokenData{Name: "r", Symbol: s, InitialAmount: amt, MaxSupply: new(big.Int).Mul(amt, Z(2)), Mintable: true, Burnable: true}
+			typ, data = transaction.TypeRecreateToken, transaction.RecreateTokenData{Name: "r", Symbol: s, InitialAmount: amt, MaxSupply: capAround(amt, new(big.Int).Mul(amt, Z(2))), Mintable: true, Burnable: true}
 		case "multisig":
 			typ, data = transaction.TypeCreateMultisig, transaction.CreateMultisigData{Threshold: uint32(1 + w.R.Intn(3)), Weights: []uint32{1, 2, uint32(w.R.Intn(3))}, Addresses: []types.Address{w.N.Accts[0].Addr, w.N.Accts[1].Addr, w.N.Accts[2%len(w.N.Accts)].Addr}}
 		default:
@@ -558,6 +558,19 @@ func (w *World) route() []types.CoinID {
 		}
 	}
 	return route
+}
+
+// capAround: the maximum supply of a coin / token to be created with the initial amount amt: one creation in ten asks
+// for a maximum just below the initial amount (must be refused) or equal to it (no room at all); decided by the digits
+// of amt so that no further random draw is consumed
+func capAround(amt, normal *big.Int) *big.Int {
+	switch new(big.Int).Mod(amt, Z(10)).Int64() {
+	case 0:
+		return new(big.Int).Sub(amt, Z(1))
+	case 1:
+		return new(big.Int).Set(amt)
+	}
+	return normal
 }
 
 // mkCheck issues a check signed by issuer with a lock for redeemer.
